@@ -32,3 +32,9 @@ package ipfamily
 //@   ensures result1 == nil ==> ((result0 == DualStack) == (len(ips) == 2))
 //@   modifies fresh []string, fresh []interface{}
 //@   loop 1 invariant (ipsStrings == nil || fresh(ipsStrings)) && len(ipsStrings) == iter
+
+// ForService: the family of the Service's cluster IPs (spec.clusterIPs, else spec.clusterIP): a read-only function
+//@ func ForService
+//@   trusted
+//@   requires svc != nil
+//@   modifies fresh []string, fresh []interface{}
